@@ -180,7 +180,7 @@ class Ctx:
                 "rustc 1.97 nightly: type checking, MIR construction, const evaluation, trait resolution",
                 "espada-facts driver serialisation", "python rule library under /verif/sa and /verif/rules",
                 "normalisation passes over the fact base (sa/desugar.py: std combinators / iterator pipelines with closures; "
-                "sa/inline.py: private helpers, jump threading; sa/placefwd.py: single-definition element references): they rewrite nothing on the reference tree"],
+                "sa/inline.py: private helpers, jump threading; sa/placefwd.py: single-definition element references): on the reference tree the only body they rewrite is the `?` of the flop iterator's `Iterator::next` (see normalised_functions)"],
             "normalised_functions": {k: {"desugared": sorted(getattr(v, "desugared", {})), "inlined_into": sorted(getattr(v, "inlined", {})),
                                          "forwarded_refs": sorted(getattr(v, "forwarded", {}))}
                                      for k, v in self._facts.items()},
